@@ -162,10 +162,10 @@ def two_cards():
     return h
 
 
-def zmk(nparts):
+def zmk(nparts, plen=32):
     def h():
         k = P().key
-        parts = [hex_string('part%d' % i, 32) for i in range(nparts)]
+        parts = [hex_string('part%d' % i, plen) for i in range(nparts)]
         extra = {}
 
         def rp():
@@ -175,11 +175,11 @@ def zmk(nparts):
         core.set_fallback(rp, 'C14/concretised')
         with guard('get_zone_master_key', 'C14/zmk-exception', rp):
             clear, kcv = k.get_zone_master_key(*parts)
-        want = [z3.BitVecVal(0, 4)] * 32
+        want = [z3.BitVecVal(0, 4)] * plen
         for p in parts:
             want = [z3.simplify(a ^ c.t) for a, c in zip(want, p.cells)]
         clear = SymStr.of(clear)
-        require(len(clear.cells) == 32, 'combined key is not 32 hex digits', key='C14/zmk-xor', replay=rp)
+        require(len(clear.cells) == plen, 'combined key has %d hex digits, the components have %d' % (len(clear.cells), plen), key='C14/zmk-xor', replay=rp)
         require(nibs_eq([symstr._nib_of_char(c) for c in clear.cells], want), 'combined key is not the XOR of the components', key='C14/zmk-xor', replay=rp)
         # order independence and cancellation through the real function
         for perm in itertools.permutations(range(nparts)):
@@ -215,10 +215,10 @@ def zmk(nparts):
             enc, kcv2 = k.get_enc_zone_master_key(master, *parts)
         mb = master.__sunhexlify__()
         wantenc = []
-        for i in (0, 8):
+        for i in range(0, plen // 2, 8):
             wantenc += HexInt.from_bv(cryptostub.reference_E('3DES', mb, keyb[i:i + 8].bv())).nibs
         en = SymStr.of(enc)
-        require(len(en.cells) == 32 and nibs_eq([symstr._nib_of_char(c) for c in en.cells], wantenc),
+        require(len(en.cells) == plen and nibs_eq([symstr._nib_of_char(c) for c in en.cells], wantenc),
                 'encrypted zone key is not the 3DES-ECB encryption of the XOR under the master key', key='C14/enc-zmk', replay=rp)
         require(SymStr.of(kcv2) == kc, 'key check value of the encrypted form differs', key='C14/kcv', replay=rp)
         return {'sample': rp()['args'], 'replay': rp()}
@@ -236,6 +236,9 @@ def obligations(tier):
     obs.append(Ob('pvv/mixin/8-symbolic-hex-digits', pvv(8, tails[:1], 'mixin'), 600, 'same through VisaPVVPinBlockMixin.to_pvv, tail ffffffff, PIN length 7', _funcs))
     for n in (1, 2, 3):
         obs.append(Ob('zmk/%d-components' % n, zmk(n), 300, '%d key components of 32 arbitrary hex digits; master key arbitrary' % n, _funcs))
+    for n in ((1, 2) if q else (1, 2, 3)):
+        obs.append(Ob('zmk-triple-length/%d-components' % n, zmk(n, 48), 300,
+                      '%d key components of 48 arbitrary hex digits (triple-length keys); master key arbitrary' % n, _funcs))
     if not q:
         for s in range(16):
             obs.append(Ob('pvv/function/16-symbolic/pattern-%x' % s, pvv(16, None, 'function', split=s), 3000,
